@@ -833,7 +833,9 @@ class TimedStore(typing.Generic[KT]):
             )
             return
 
-        asyncio.get_event_loop().call_soon(callback, entry, address)
+        # report immediately, like stop(): if this were deferred, a refresh handled in
+        # between would be reported as new before its predecessor is reported expired
+        callback(entry, address)
 
     def entries(self) -> typing.Iterator[KT]:
         return itertools.chain.from_iterable(x.keys() for x in self.store.values())
